@@ -7,17 +7,18 @@
 // Supported Go subset (anything else makes the function "untranslated": the marker
 // definition `f_untranslated` is printed instead and the equivalence theorem no longer
 // builds, which bin/check reports as a broken obligation):
-//   types       string, bool, signed and unsigned integers (as Int / Nat, comparisons only),
-//               time.Time (Equal/Before/After), []string, the struct Rel, map[string]string
-//               literals, the Resource interface through res.Get("id").(string) and
-//               res.GetType().Name
-//   statements  return, if/else, switch (with or without tag, no fallthrough), :=, =, +=,
-//               const and var declarations; every path must end in a return
-//   expressions literals, constants of the package (by value), == != < <= > >= && || !,
-//               string +, field selection, composite literals of Rel, *p, len, x[k] with a
-//               constant k (as getD: every use in the list below is guarded by a length
-//               test), s[k:], strings.HasPrefix/HasSuffix, calls of and method calls on
-//               other translated functions
+//
+//	types       string, bool, signed and unsigned integers (as Int / Nat, comparisons only),
+//	            time.Time (Equal/Before/After), []string, the struct Rel, map[string]string
+//	            literals, the Resource interface through res.Get("id").(string) and
+//	            res.GetType().Name
+//	statements  return, if/else, switch (with or without tag, no fallthrough), :=, =, +=,
+//	            const and var declarations; every path must end in a return
+//	expressions literals, constants of the package (by value), == != < <= > >= && || !,
+//	            string +, field selection, composite literals of Rel, *p, len, x[k] with a
+//	            constant k (as getD: every use in the list below is guarded by a length
+//	            test), s[k:], strings.HasPrefix/HasSuffix, calls of and method calls on
+//	            other translated functions
 package main
 
 import (
